@@ -1,5 +1,5 @@
 (* C08 — observe server. Only statements here; every proof is [exact <lemma of Proofs/C08*.v>]. *)
-From Verif Require Import Lib.Py Lib.Tactics Model.C08 Proofs.C08 Proofs.C08Silent Proofs.C08Ends Proofs.C08Observe Proofs.C08Wire.
+From Verif Require Import Lib.Py Lib.Tactics Model.C08 Proofs.C08 Proofs.C08Silent Proofs.C08Ends Proofs.C08Observe Proofs.C08Wire Proofs.C08Latest.
 Open Scope Z_scope.
 
 (* The resource's bookkeeping, for every history of requests, observer reactions, losses, timers, triggers,
@@ -108,27 +108,60 @@ Example C08_wire_nonvacuous :
 Proof. vm_compute. repeat split. eexists. split; [left; reflexivity | reflexivity]. Qed.
 
 (* the code-level facts the invariant rests on (one pass of the notification loop) *)
-Theorem C08_notification_token_and_observe_partial : forall s g code o pk pv,
+Theorem C08_notification_token_and_observe_loop : forall s g code o pk pv,
   exists m, s_prod (emit s g code o pk pv) = m :: s_prod s /\
             m_token m = g_token g /\ m_remote m = g_remote g /\ m_observe m = o /\ m_gid m = g_gid g /\ m_code m = code /\ m_pk m = pk /\ m_pv m = pv.
 Proof. exact emit_spec. Qed.
-Print Assumptions C08_notification_token_and_observe_partial.
-Theorem C08_first_response_observe_zero_partial : forall s g code pk pv, successful code = true ->
+Print Assumptions C08_notification_token_and_observe_loop.
+Theorem C08_first_response_observe_zero_loop : forall s g code pk pv, successful code = true ->
   first_render_done s g (RResp code pk pv) = run_loop 2 (emit s (set_next g 0) code (Some 0) pk pv) (set_next g 0).
 Proof. exact first_response_observe_zero. Qed.
-Print Assumptions C08_first_response_observe_zero_partial.
-Theorem C08_observe_strictly_increasing_partial : forall cont s g code pk pv, g_late g = false -> successful code = true ->
+Print Assumptions C08_first_response_observe_zero_loop.
+Theorem C08_observe_strictly_increasing_loop : forall cont s g code pk pv, g_late g = false -> successful code = true ->
   after_response cont s g (RResp code pk pv) =
   cont (emit s (set_next g (g_next g + 1)) code (Some (g_next g + 1)) pk pv) (set_next g (g_next g + 1)).
 Proof. exact notification_observe_next. Qed.
-Print Assumptions C08_observe_strictly_increasing_partial.
-(* ---- latest state: a burst of triggers before the task runs leaves exactly the last value in the (lossy) future, with a
-   sticky is_last.  PARTIAL: "after the script has settled the newest notification on the wire is as new as
-   the last change" is checked by the oracle (C08:latest-not-sent), not proved over histories. *)
-Theorem C08_trigger_keeps_latest_partial : forall s gid g tv1 l1 tv2 l2, find_reg s gid = Some g ->
+Print Assumptions C08_observe_strictly_increasing_loop.
+(* ---- latest state sent, over whole histories.  For every event list from the initial state and every LIVE registration g0
+   (an ended one is the property's "or the registration ended"), under the fairness hypotheses
+     - no render of g0 is in progress at the end (its task waits for the next trigger: g_phase g0 = PWait), and
+     - nothing of g0 waits in the backlog (the peer has acknowledged what was sent before: queuel = []),
+   there is a datagram for g0 on the wire, no trigger is pending, and the LAST datagram transmitted for g0 is the notification
+   produced last; if it was rendered (m_pk = 1) it carries the resource's current version, i.e. it was rendered at or after
+   the last trigger (s_version is changed by ETrigger only, once per state change). An explicit response (m_pk = 2) is the
+   value the application passed; that the lossy future keeps the last one is C08_trigger_keeps_latest_loop. *)
+Theorem C08_latest_state_sent : forall mid0 es g0, let s := run (init mid0) es in
+  In g0 (s_regs s) -> g_phase g0 = PWait -> queuel (g_gid g0) s = [] ->
+  g_trig g0 = None /\
+  exists m, last_wire (g_gid g0) s = Some m /\ lastp (g_gid g0) s = Some m /\ (m_pk m = 1 -> m_pv m = s_version s).
+Proof. exact latest_lemma. Qed.
+Print Assumptions C08_latest_state_sent.
+(* the invariant behind it, for every registration in every reachable state: an idle task has no pending trigger and its last
+   produced notification is current; a render in progress without a newer trigger pending was started at the current version
+   (so the notification it will produce is current; with a newer trigger pending another render follows) *)
+Theorem C08_latest_state_invariant : forall mid0 es g0, In g0 (s_regs (run (init mid0) es)) -> QV (run (init mid0) es) g0.
+Proof. intros mid0 es. exact (latest_invariant mid0 es). Qed.
+Print Assumptions C08_latest_state_invariant.
+(* the fairness hypotheses are satisfiable: slow renders, a burst of changes during a render, a notification waiting in the
+   backlog until the previous one is acknowledged — then idle, nothing queued, and the last datagram carries version 3 = now *)
+Example C08_latest_state_fair_example :
+  let s := run (init 0) [ERequest 1 true 1 1 (Some 0); ESetGate true; ETrigger [] [(TRender, false)];
+                         ETrigger [] [(TRender, false); (TRender, false)]; ERenderDone 1 1; ERenderDone 1 1; EAck 1 0; EAck 1 1] in
+  (exists g0, In g0 (s_regs s) /\ g_gid g0 = 0 /\ g_phase g0 = PWait) /\ queuel 0 s = [] /\ s_version s = 3 /\
+  map m_pv (wirel 0 s) = [0; 1; 3] /\ option_map m_pv (last_wire 0 s) = Some 3.
+Proof. vm_compute. repeat split. eexists. repeat split. left. reflexivity. Qed.
+(* before the acknowledgement the newest notification still waits in the backlog: the hypothesis is not vacuous either way *)
+Example C08_latest_state_unfair_example :
+  let s := run (init 0) [ERequest 1 true 1 1 (Some 0); ESetGate true; ETrigger [] [(TRender, false)];
+                         ETrigger [] [(TRender, false); (TRender, false)]; ERenderDone 1 1; ERenderDone 1 1] in
+  map m_pv (queuel 0 s) = [3] /\ option_map m_pv (last_wire 0 s) = Some 1 /\ s_version s = 3.
+Proof. vm_compute. repeat split. Qed.
+
+(* code-level fact: a burst of triggers before the task runs leaves exactly the last value in the (lossy) future, with a sticky is_last *)
+Theorem C08_trigger_keeps_latest_loop : forall s gid g tv1 l1 tv2 l2, find_reg s gid = Some g ->
   find_reg (trigger (trigger s gid tv1 l1) gid tv2 l2) gid = Some (set_trig g (Some tv2) (g_late g || l1 || l2)).
 Proof. exact trigger_overwrites. Qed.
-Print Assumptions C08_trigger_keeps_latest_partial.
+Print Assumptions C08_trigger_keeps_latest_loop.
 
 (* ---- non-vacuity: concrete reachable states satisfy the hypotheses *)
 Example C08_nonvacuous_reset :
